@@ -1,5 +1,5 @@
 (** C01 -- Every sent request is concluded exactly once, at its own caller. *)
-From Verif Require Import Base.Prelude M1.Client M1.ClientProofs.
+From Verif Require Import Base.Prelude M1.Client M1.ClientProofs M1.ClientOwn.
 
 (** Client endpoint (charge point / charging station), OCPP-J layer, every schedule:
     accepted = concluded ++ still queued, as sequences of request ids (per run of the dispatcher):
@@ -9,8 +9,20 @@ Theorem C01_client_accepted_is_concluded_plus_queued : forall c t ls, Forall wf_
 Proof. exact nothing_lost_S1. Qed.
 Print Assumptions C01_client_accepted_is_concluded_plus_queued.
 
-(** Protocol layer, schedule class S0: every callback receives the conclusion of the very request it
-    was registered for; no conclusion finds the callback queue empty; no goroutine panics. *)
+(** Protocol layer, EVERY schedule (any interleaving of API calls, frames, connection events, timer expiries and the
+    iterations of the pump and of the callback routine; possible since the repairs F31, F32, F35, F36): every callback
+    receives the conclusion of the very request it was registered for; no conclusion finds the callback queue empty;
+    no goroutine panics. *)
+Theorem C01_client_own_caller : forall c t ls, Forall wf_lab ls -> Forall own (tr (run ls (init c t))).
+Proof. exact own_caller_S1. Qed.
+Print Assumptions C01_client_own_caller.
+
+(** once Stop has been called no conclusion is delivered until the next Start, whatever is waiting (repair F36) *)
+Theorem C01_client_nothing_delivered_while_stopped : forall s, stopSig s = true -> step Deliver s = s.
+Proof. exact nothing_delivered_while_stopped. Qed.
+Print Assumptions C01_client_nothing_delivered_while_stopped.
+
+(** the same for the schedule class S0 (kept: it is the statement the quiescent correspondence exercises directly) *)
 Theorem C01_client_own_caller_partial : forall c t ls, Forall wf_lab ls -> run_ok ls (init c t) = true ->
   Forall own (tr (run ls (init c t))).
 Proof. exact own_caller_S0. Qed.
@@ -31,3 +43,12 @@ Theorem C01_client_S0_nonvacuous :
   conc (tr (qrun [Start; Send 1 true; Send 2 true; Reply 1 0; Expire] (init 2 0))) = [1; 2].
 Proof. exact demo_in_S0. Qed.
 Print Assumptions C01_client_S0_nonvacuous.
+
+(** a schedule outside S0 (Stop overtakes a conclusion; the old callback routine leaves only after the restart) on which
+    the statement above is exercised: the new session's request is concluded at its own callback *)
+Theorem C01_client_S1_nonvacuous :
+  let ls := [Start; Send 1 true; PumpReq; Reply 1 0; Stop; PumpStop; Start; Send 2 true; DeliverStop; PumpReq; Reply 2 0; Deliver] in
+  Forall wf_lab ls /\ run_ok ls (init 2 0) = false /\
+  filter (fun e => match e with ECb _ _ _ => true | _ => false end) (tr (run ls (init 2 0))) = [ECb 2 2 0].
+Proof. exact S1_restart_demo. Qed.
+Print Assumptions C01_client_S1_nonvacuous.
